@@ -229,6 +229,189 @@ def search_graphs4(ctx, dvals):
         ctx.violation(*v)
 
 
+# ---- edit SEQUENCES over cyclic documents --------------------------------------------------------------------
+# steps: ['mod', column index, [referenced column indexes]] | ['upd', row, value] | ['add', value]
+
+def _set_col(graph, i, subset):
+  g = list(graph)
+  g[i] = tuple(subset)
+  return tuple(g)
+
+
+def run_sequence(w, seconds=10):
+  """After the initial build and after EVERY step: every cell against (i) the reachability oracle and (ii) a freshly
+  built engine with the same formulas and data.  None, or (kind, description, index of the failing step or -1)."""
+  graph = tuple(tuple(x) for x in w['graph'])
+  dvals = list(w['d'])
+  cols = [ST.FCOLS[i] for i in range(len(graph))]
+  def build(g, d, pseed):
+    e, _ = G.new_doc()
+    if pseed is not None:
+      ST.inject_order(e, K2.node_priority(pseed))
+    G.apply(e, [ST.table_action(graph_prog(g))])
+    G.apply(e, [ST.rows_action(d, [1] * len(d))])
+    return e
+  def check(e, g, d, k):
+    got = observed(e, cols)
+    exp, _ = graph_expected(g, d)
+    for c in cols:
+      for i, (a, b) in enumerate(zip(exp[c], got.get(c) or [])):
+        if a != b:
+          kind = 'cycle_not_reported' if a == CRE else ('stale_cycle_error' if b == CRE else 'wrong_value')
+          return kind, 'after step %d: %s[row %d] holds %r, expected %r (graph %r)' % (k, c, i + 1, b, a, g), k
+      if len(got.get(c) or []) != len(exp[c]):
+        return 'wrong_value', 'after step %d: column %s has %r' % (k, c, got.get(c)), k
+    fresh = observed(build(g, d, None), cols)
+    if fresh != got:
+      return 'differs_from_fresh_engine', 'after step %d: engine holds %r, a freshly built engine %r' % (k, got, fresh), k
+    return None
+  def go():
+    g, d = graph, list(dvals)
+    e = build(g, d, w.get('pseed'))
+    bad = check(e, g, d, -1)
+    if bad:
+      return bad
+    for k, st in enumerate(w['steps']):
+      if st[0] == 'mod':
+        g2 = _set_col(g, st[1], st[2])
+        if g2 == g:
+          continue
+        c = ST.FCOLS[st[1]]
+        G.apply(e, [['ModifyColumn', ST.TABLE, c, {'formula': ST.py_formula(graph_prog(g2)[c])}]])
+        g = g2
+      elif st[0] == 'upd':
+        if not (1 <= st[1] <= len(d)):
+          continue
+        G.apply(e, [['UpdateRecord', ST.TABLE, st[1], {ST.DATA: st[2]}]])
+        d[st[1] - 1] = st[2]
+      else:
+        G.apply(e, [['AddRecord', ST.TABLE, None, {ST.DATA: st[1], ST.REF: 1}]])
+        d.append(st[1])
+      bad = check(e, g, d, k)
+      if bad:
+        return bad
+    return None
+  try:
+    return ST.limited2(go, seconds)
+  except Timeout:
+    return 'internal', 'recalculation did not terminate within the time limit', -1
+  except Exception as x:
+    return 'internal', 'recalculation raised %r' % (x,), -1
+
+
+def gen_cycle_sequence(rng, n):
+  """A cycle (length 1..n) with an optional tail leading into it and optional unrelated columns; then: break the cycle
+  at each of its columns in turn (re-creating it in between), break at the tail, with row edits in between."""
+  idx = list(range(n))
+  rng.shuffle(idx)
+  k = rng.randint(1, n)
+  cyc, rest = idx[:k], idx[k:]
+  graph = [()] * n
+  for j, c in enumerate(cyc):
+    graph[c] = (cyc[(j + 1) % k],)
+  tail = []
+  prev = cyc[0]
+  for c in rest:
+    r = rng.random()
+    if r < 0.5:
+      graph[c] = (prev,)          # a tail leading into the cycle
+      tail.append(c)
+      prev = c
+    elif r < 0.65:
+      graph[c] = (c,)             # an unrelated cycle that stays
+    elif r < 0.8 and tail:
+      graph[c] = tuple(sorted({cyc[0], tail[0]}))
+  steps = []
+  def noise():
+    r = rng.random()
+    if r < 0.25:
+      steps.append(['upd', rng.randint(1, 2), rng.choice([0, 3, 5])])
+    elif r < 0.35:
+      steps.append(['add', rng.choice([1, 4])])
+  order = list(cyc)
+  rng.shuffle(order)
+  for c in order + tail:
+    old = list(graph[c])
+    steps.append(['mod', c, [x for x in old if x not in cyc and x not in tail] if rng.random() < 0.8 else []])
+    noise()
+    steps.append(['mod', c, old])
+    noise()
+  last = rng.choice(cyc)
+  steps.append(['mod', last, []])
+  return tuple(graph), steps
+
+
+def single_change_sequences(n):
+  """All graphs on n columns x all changes of one column's references."""
+  subsets = [tuple(j for j in range(n) if m >> j & 1) for m in range(1 << n)]
+  for graph in all_graphs(n):
+    for i in range(n):
+      for sub in subsets:
+        if sub != graph[i]:
+          yield graph, [['mod', i, list(sub)]]
+
+
+def _seq_job(w):
+  return w, run_sequence(w)
+
+
+def report_sequence(ctx, w, bad):
+  from harness import histgen
+  steps = histgen.shrink_list(w['steps'], lambda sub: run_sequence(dict(w, steps=sub)) is not None) \
+    if len(w['steps']) > 1 else w['steps']
+  w2 = dict(w, steps=steps)
+  bad2 = run_sequence(w2) or bad
+  ctx.violation(bad2[0], bad2[1] + '; edit sequence %r' % (steps,), w2)
+
+
+def search_sequences(ctx):
+  dvals = [1, 2]
+  jobs = []
+  for n in ((1, 2) if ctx.tier == 'quick' else (1, 2, 3)):
+    for graph, steps in single_change_sequences(n):
+      jobs.append({'stream': 'seq', 'graph': [list(x) for x in graph], 'd': dvals, 'steps': steps, 'pseed': None,
+                   'family': 'single-change:n%d' % n})
+  if ctx.tier == 'thorough':
+    ctx.extra['exhaustive_sequences'] = 'all graphs on <= 3 formula columns x all single-column formula changes'
+  for _ in range(ctx.n(30, 1500)):
+    n = ctx.rng.choice([2, 3, 3, 4, 4])
+    graph, steps = gen_cycle_sequence(ctx.rng, n)
+    jobs.append({'stream': 'seq', 'graph': [list(x) for x in graph], 'd': dvals, 'steps': steps,
+                 'pseed': ctx.rng.choice([None, ctx.rng.randrange(1 << 30)]), 'family': 'cycle-break:n%d' % n})
+  for _ in range(ctx.n(15, 600)):
+    n = ctx.rng.choice([2, 3, 4])
+    graph = tuple(tuple(j for j in range(n) if ctx.rng.random() < 0.4) for _i in range(n))
+    steps = []
+    for _s in range(ctx.rng.randint(3, 8)):
+      r = ctx.rng.random()
+      if r < 0.7:
+        steps.append(['mod', ctx.rng.randrange(n), [j for j in range(n) if ctx.rng.random() < 0.35]])
+      elif r < 0.9:
+        steps.append(['upd', ctx.rng.randint(1, 2), ctx.rng.choice([0, 3, 5])])
+      else:
+        steps.append(['add', ctx.rng.choice([1, 4])])
+    jobs.append({'stream': 'seq', 'graph': [list(x) for x in graph], 'd': dvals, 'steps': steps,
+                 'pseed': ctx.rng.choice([None, ctx.rng.randrange(1 << 30)]), 'family': 'random:n%d' % n})
+  if ctx.tier == 'thorough':
+    import multiprocessing
+    pool = multiprocessing.Pool(6)
+    try:
+      results = pool.map(_seq_job, jobs, chunksize=64)
+    finally:
+      pool.terminate()
+  else:
+    results = [_seq_job(w) for w in jobs]
+  nbad = 0
+  for w, bad in results:
+    g = tuple(tuple(x) for x in w['graph'])
+    ctx.count(('seq', repr(w)), nontrivial=graph_expected(g, w['d'])[1] or any(s[0] == 'mod' for s in w['steps']),
+              kind='seq:' + w.pop('family'))
+    ctx.bump('seq:steps', len(w['steps']))
+    if bad and nbad < 6:
+      nbad += 1
+      report_sequence(ctx, w, bad)
+
+
 # ---- random grammar programs against a recursive reference evaluator ------------------------------------------
 
 class _Cycle(Exception):
@@ -407,6 +590,8 @@ def search_lookups(ctx):
 def search(ctx):
   search_graphs(ctx)
   ctx.log('search: graphs done')
+  search_sequences(ctx)
+  ctx.log('search: edit sequences done')
   search_progs(ctx)
   ctx.log('search: programs done')
   search_lookups(ctx)
@@ -419,6 +604,8 @@ def replay(ctx, w):
   elif s == 'graphsteps':
     g0, g1 = [tuple(tuple(x) for x in g) for g in w['graphs']]
     bad = judge(lambda: _fresh_steps(g0, g1, w['d'], w.get('pseed'))[1], g1, w['d'])
+  elif s == 'seq':
+    bad = run_sequence(w)
   elif s == 'prog':
     bad = run_prog(w)
   elif s == 'lookup':
